@@ -23,6 +23,7 @@ META = {
     ],
     "floor_evaluations": {"quick": 2000, "thorough": 20000},
     "floor_nontrivial": {"quick": 400, "thorough": 4000},
+    "threads": 3,
     "anchors": ["func_adl/ast/aggregate_shortcuts.py"],
 }
 NAMES = ["len", "Count", "Sum", "Max", "Min"]
